@@ -870,8 +870,16 @@ func croltGlue(r *rep.Report) {
 				return
 			}
 			f.Lock()
-			f.jobs[job.Account+"\x00"+job.Id] = job.Schedule
+			_, exists := f.jobs[job.Account+"\x00"+job.Id]
+			if !exists {
+				f.jobs[job.Account+"\x00"+job.Id] = job.Schedule
+			}
 			f.Unlock()
+			if exists {
+				// as the real service: a job that exists is refused
+				http.Error(w, "error creating job: exists", 400)
+				return
+			}
 			fmt.Fprintf(w, `{"job":%s}`, b)
 		})
 		mux.HandleFunc("/rem", func(w http.ResponseWriter, q *http.Request) {
@@ -903,7 +911,7 @@ func croltGlue(r *rep.Report) {
 		steps := []step{
 			{"add", "home", "tick", "0 0 1 1 *"}, {"add", "home", "other", "0 0 2 1 *"}, {"add", "attic", "tick", "0 0 3 1 *"},
 			{"rem", "home", "tick", ""}, {"add", "home", "a&b=c", "0 0 4 1 *"}, {"add", "two words", "sp ace", "0 0 5 1 *"}, {"add", "home", "uni\u00e9#1", "0 0 6 1 *"},
-			{"rem", "home", "a&b=c", ""}, {"rem", "two words", "sp ace", ""}, {"plain", "home", "other", ""}, {"rem", "home", "uni\u00e9#1", ""},
+			{"add", "home", "other", "0 30 2 1 *"}, {"rem", "home", "a&b=c", ""}, {"rem", "two words", "sp ace", ""}, {"plain", "home", "other", ""}, {"rem", "home", "uni\u00e9#1", ""},
 			{"add", "attic", "again", "0 0 7 1 *"}, {"clear", "attic", "", ""},
 		}
 		var hist []step
